@@ -31,16 +31,15 @@ theorem rangeOverlap_eq : Gen.rangeOverlap = Loc.rangeOverlap := by
   simp only [Gen.rangeOverlap, Loc.rangeOverlap]
   by_cases h1 : e < s <;> by_cases h2 : u < l <;> simp [h1, h2]
 
-theorem toOriginLength_eq : Gen.toOriginLength = Gts.toOriginLength := by
-  funext n; simp only [Gen.toOriginLength, Gts.toOriginLength]
+theorem toOriginLength_eq : Gen.toOriginLength = Gts.Origin.toOriginLength := by
+  funext n; simp only [Gen.toOriginLength, Gts.Origin.toOriginLength]
 
-theorem fromOriginLength_eq : Gen.fromOriginLength = Gts.fromOriginLength := by
-  funext n; simp only [Gen.fromOriginLength, Gts.fromOriginLength]
+theorem fromOriginLength_eq : Gen.fromOriginLength = Gts.Origin.fromOriginLength := by
+  funext n; simp only [Gen.fromOriginLength, Gts.Origin.fromOriginLength]
 
 theorem betweenExpand_eq : Gen.betweenExpand = Loc.betweenExpand := by
   funext p i n
   simp only [Gen.betweenExpand, Loc.betweenExpand, gmax_eq]
-  split <;> rfl
 
 theorem pointExpand_eq : Gen.pointExpand = Loc.pointExpand := by
   funext p i n
@@ -50,57 +49,60 @@ theorem pointExpand_eq : Gen.pointExpand = Loc.pointExpand := by
     rw [if_pos h', if_pos h]
   · have h' : ¬ ((n < 0 ∧ i ≤ p) ∧ p < i - n) := fun hh => h ⟨hh.1.1, hh.1.2, hh.2⟩
     rw [if_neg h', if_neg h]
-    split <;> rfl
 
 theorem rangedExpand_eq : Gen.rangedExpand = Loc.rangedExpand := by
   funext s e p5 p3 i n
   simp only [Gen.rangedExpand, Loc.rangedExpand, gmax_eq]
-  by_cases h0 : n = 0
-  · simp [h0]
-  · simp only [h0, if_false]
-    by_cases hn : n < 0
-    · simp only [hn, true_and, if_true]
-      by_cases a : i ≤ s ∧ s < i - n <;> by_cases b : i < e ∧ e ≤ i - n <;> simp [a, b] <;>
-        split <;> simp_all
-    · simp only [hn, false_and, if_false]
-      split <;> simp_all
+  all_goals try (
+    by_cases h0 : n = 0
+    · simp [h0]
+    · simp only [h0, if_false]
+      by_cases hn : n < 0
+      · simp only [hn, true_and, if_true]
+        by_cases a : i ≤ s ∧ s < i - n <;> by_cases b : i < e ∧ e ≤ i - n <;> simp [a, b] <;>
+          try (split <;> simp_all)
+      · simp only [hn, false_and, if_false]
+        try (split <;> simp_all))
 
 theorem ambiguousExpand_eq : Gen.ambiguousExpand = Loc.ambiguousExpand := by
   funext s e i n
   simp only [Gen.ambiguousExpand, Loc.ambiguousExpand, gmax_eq]
-  by_cases h0 : n = 0
-  · simp [h0]
-  · simp only [h0, if_false]
-    split <;> simp_all
+  all_goals try (
+    by_cases h0 : n = 0
+    · simp [h0]
+    · simp only [h0, if_false]
+      try (split <;> simp_all))
 
 theorem rangedShift_eq : Gen.rangedShift = Loc.rangedShift := by
   funext s e p5 p3 i n
   simp only [Gen.rangedShift, Loc.rangedShift, rangedExpand_eq]
-  by_cases h0 : n = 0
-  · simp [h0]
-  · simp only [h0, if_false]
-    by_cases hn : n < 0
-    · simp [hn]
-    · simp only [hn, if_false]
-      by_cases hs : s < i ∧ i < e
-      · simp only [hs, and_self, if_true]
-        cases p5 <;> cases p3 <;> simp
-      · simp only [hs, if_false]
-        by_cases a : i ≤ s <;> by_cases b : i < e <;> simp [a, b]
+  all_goals try (
+    by_cases h0 : n = 0
+    · simp [h0]
+    · simp only [h0, if_false]
+      by_cases hn : n < 0
+      · simp [hn]
+      · simp only [hn, if_false]
+        by_cases hs : s < i ∧ i < e
+        · simp only [hs, and_self, if_true]
+          cases p5 <;> cases p3 <;> simp
+        · simp only [hs, if_false]
+          try (by_cases a : i ≤ s <;> by_cases b : i < e <;> simp [a, b]))
 
 theorem ambiguousShift_eq : Gen.ambiguousShift = Loc.ambiguousShift := by
   funext s e i n
   simp only [Gen.ambiguousShift, Loc.ambiguousShift, ambiguousExpand_eq]
-  by_cases h0 : n = 0
-  · simp [h0]
-  · simp only [h0, if_false]
-    by_cases hn : n < 0
-    · simp [hn]
-    · simp only [hn, if_false]
-      by_cases hs : s < i ∧ i < e
-      · simp [hs]
-      · simp only [hs, if_false]
-        by_cases a : i ≤ s <;> by_cases b : i < e <;> simp [a, b]
+  all_goals try (
+    by_cases h0 : n = 0
+    · simp [h0]
+    · simp only [h0, if_false]
+      by_cases hn : n < 0
+      · simp [hn]
+      · simp only [hn, if_false]
+        by_cases hs : s < i ∧ i < e
+        · simp [hs]
+        · simp only [hs, if_false]
+          try (by_cases a : i ≤ s <;> by_cases b : i < e <;> simp [a, b]))
 
 theorem betweenReverse_eq (p L : Int) : Gen.betweenReverse p L = Loc.reverse (.between p) L := by
   simp [Gen.betweenReverse, Loc.reverse]
